@@ -785,3 +785,84 @@ pub fn loopbad_iterator_rebuilt(v: &[u8]) -> u32 {
     }
     s
 }
+
+pub fn loopgood_bisect(v: &[u32], key: u32) -> usize {
+    let mut lo = 0usize;
+    let mut hi = v.len();
+    while lo < hi {
+        let mid = (lo + hi) / 2;
+        if v[mid] < key {
+            lo = mid + 1;
+        } else {
+            hi = mid;
+        }
+    }
+    lo
+}
+
+// `lo = mid` makes no progress once hi == lo + 1
+pub fn loopbad_bisect_lo_mid(v: &[u32], key: u32) -> usize {
+    let mut lo = 0usize;
+    let mut hi = v.len();
+    while lo < hi {
+        let mid = (lo + hi) / 2;
+        if v[mid] < key {
+            lo = mid;
+        } else {
+            hi = mid;
+        }
+    }
+    lo
+}
+
+// the rounded-up midpoint can equal hi: `hi = mid` makes no progress
+pub fn loopbad_bisect_ceil(v: &[u32], key: u32) -> usize {
+    let mut lo = 0usize;
+    let mut hi = v.len();
+    while lo < hi {
+        let mid = (lo + hi + 1) / 2;
+        if mid < v.len() && v[mid] < key {
+            lo = mid + 1;
+        } else {
+            hi = mid;
+        }
+    }
+    lo
+}
+
+// ---- bounds through a sign-reinterpreting cast -------------------------------------------------------------------
+
+pub fn good_cast_guard(v: &[u8; 8], n: i32) -> u8 {
+    if n as u32 > 6 {
+        return 0;
+    }
+    v[n as usize]
+}
+
+// the source changed after the cast
+pub fn bad_cast_guard_stale(v: &[u8; 8], mut n: i32) -> u8 {
+    let t = n as u32;
+    n = n.wrapping_mul(3);
+    if t > 6 {
+        return 0;
+    }
+    v[(n as u32 as usize) & 0xFFFF]
+}
+
+// a narrowing cast tells nothing about the source
+pub fn bad_cast_narrowing(v: &[u8; 8], n: u32) -> u8 {
+    if (n as u8) > 6 {
+        return 0;
+    }
+    v[n as usize]
+}
+
+// positive example for the hash-iteration scanner (C01-f): the first key of a std HashMap is returned
+pub fn hash_order_observed(m: &std::collections::HashMap<u16, u16>) -> u16 {
+    let mut first = 0;
+    for k in m.keys() {
+        first = *k;
+        break;
+    }
+    first
+}
